@@ -150,9 +150,8 @@ func c10BystanderOne(c *core.Ctx, dir string, k c10BystanderCase, only int) {
 		outcome = "update done"
 	}
 	c.Observe("bystander_outcomes", k.Kind+": "+outcome)
-	if !c10BystanderJudge(c, dir, k, files, newX, "complete run (exit "+fmt.Sprint(ref.Exit)+")", "complete-run") {
-		return
-	}
+	// (after a violation of the complete run the crash points are still gone through: the first one that shows damage is reported too)
+	c10BystanderJudge(c, dir, k, files, newX, "complete run (exit "+fmt.Sprint(ref.Exit)+")", "complete-run")
 	c.Eval("bystander|"+tag+"|complete", true)
 	for kk := 1; ; kk++ {
 		if only > 0 {
@@ -301,9 +300,7 @@ func c10RerunSecond(c *core.Ctx, dir string, k c10RerunCase, left map[string]str
 		c.Observe("rerun_second_job", "refused")
 	}
 	// the complete second run: every complete table still exists (its bytes are "new" by definition)
-	if !c10RerunJudge(c, dir, k, left, complete, after, fmt.Sprintf("complete run (exit %d)", ref.Exit), "complete-run") {
-		return
-	}
+	c10RerunJudge(c, dir, k, left, complete, after, fmt.Sprintf("complete run (exit %d)", ref.Exit), "complete-run")
 	c.Eval(tag+"|complete", len(left) > len(c10RerunInitial))
 	for k2 := 1; ; k2++ {
 		if only > 0 {
